@@ -49,7 +49,8 @@ def run_history(p, calls):
     last_xml = None
     for c in calls:
         if c['op'] == 'convert':
-            r = real.convert(c['text'], c['root'], parser=p)
+            # the same conversion by either documented path: parse_to_xml, or parse + to_dict (serialised) + xml_from_dict
+            r = (real.convert_via_dict if c.get('via') == 'dict' else real.convert)(c['text'], c['root'], parser=p)
             if 'etree' in r:
                 last_xml = r['etree']
             outs.append(real.strip_etree(r))
@@ -111,7 +112,11 @@ def run(ctx, info):
     reqs, kept = [], []
     for _ in range(n):
         calls = rand_history(rng)
-        probe = {'op': 'convert', 'text': rng.choice(PROBES) if rng.random() < 0.7 else C15.doc_with_attachments(rng, 'doc'), 'root': rng.choice(['act', 'doc'])}
+        probe = {'op': 'convert', 'text': rng.choice(PROBES) if rng.random() < 0.7 else C15.doc_with_attachments(rng, 'doc'), 'root': rng.choice(['act', 'doc']),
+                 'via': rng.choice(['xml', 'dict'])}
+        for c in calls:
+            if c['op'] == 'convert' and rng.random() < 0.3:
+                c['via'] = 'dict'
         pfx = rng.choice(['', '', 'p', '__attachments'])
         p = real.make_parser(prefix=pfx)
         outs = run_history(p, calls + [probe])
